@@ -48,7 +48,7 @@ fn adversarial_suffix(adv: &[(u8, u8)]) -> String {
         match kind % 9 {
             0 => s.push_str(&format!("<wxs module={q}{n}{q}>{}</wxs>", INLINE_EDGE_SCRIPTS[i % INLINE_EDGE_SCRIPTS.len()])),
             1 => s.push_str(&format!("<wxs module=\"adv{i}\">{}</wxs>", INLINE_EDGE_SCRIPTS[*name as usize % INLINE_EDGE_SCRIPTS.len()])),
-            2 => s.push_str(&format!("<view><block slot:{}>{{{{x}}}}</block></view>", ["a", "a-b", "a.b", "a1", "_x", "if", "a-"][*name as usize % 7])),
+            2 => s.push_str(&format!("<view><block slot:{}>{{{{x}}}}</block></view>", ["a", "a-b", "a.b", "a1", "_x", "if", "a-", "5", "-", ".", "1a", "a..b", "-1"][*name as usize % 13])),
             3 => s.push_str(&format!("<view><v slot:a={q}{n}{q}>{{{{a}}}}</v></view>")),
             4 => s.push_str(&format!("<block wx:for=\"{{{{list}}}}\" wx:for-item={q}{n}{q} wx:for-index=\"i{i}\">{{{{i{i}}}}}</block>")),
             5 => s.push_str(&format!("<template name={q}{n}{q}>x</template><template is={q}{n}{q}/>")),
@@ -283,7 +283,7 @@ pub fn run(tier: Tier, seed: u64, findings: &Findings) -> i32 {
         .collect();
     report.extra.insert("operator_texts".into(), json!(texts.len()));
     report.merge(engine::run_explicit(&check, &cfg, pair_cases, 4, 16, findings));
-    let cases = tier.pick(3000, 150_000);
+    let cases = tier.pick(12_000, 400_000);
     report.merge(engine::run_generated(&check, &cfg, cases, 4, 16, findings, 0));
     engine::finish(
         Finish {
